@@ -36,8 +36,31 @@ EXHAUSTIVE_NOTE = {"quick": "forests <= 4 nodes x 7^n verdicts x 2 forms x {tree
 VERDICTS = ["T", "F", "N", "S", "S0", "B", "X"]
 
 
+class MySkip(SkipBranch):
+    """application-defined control values (subclasses of the library's): honoured like their base classes"""
+
+
+class MySkipKeepSelf(SkipBranch):
+    def __init__(self):
+        super().__init__(and_self=False)
+
+
+class MySelect(SelectBranch):
+    pass
+
+
+class MyStop(StopTraversal):
+    pass
+
+
 def make_signal(v, raised):
-    """-> (value_to_return, exception_to_raise)"""
+    """-> (value_to_return, exception_to_raise); raised: 0 returned, 1 raised, 2 the class itself raised,
+    3 StopIteration, 4 / 5 an instance of an application-defined subclass returned / raised"""
+    if raised in (4, 5) and v in ("S", "S1", "S0", "B", "X"):
+        obj = {"S": MySkip, "S0": MySkipKeepSelf, "B": MySelect, "X": MyStop}[v]() if v != "S1" else MySkip(and_self=True)
+        return (obj, None) if raised == 4 else (None, obj)
+    if raised in (4, 5):
+        raised = raised - 4
     if v == "T":
         return True, None
     if v == "F":
@@ -364,11 +387,11 @@ def hyp_cases(draw, tier):
         find_inner(spec)
         for i in inner[:12] + draw(st.lists(st.integers(0, n - 1), max_size=6)):
             verdicts[i] = draw(st.sampled_from(pool))
-        f0 = draw(st.sampled_from([0, 1, 2, 3]))
+        f0 = draw(st.sampled_from([0, 1, 2, 3, 4, 5]))
         forms = [f0] * n
     else:
         verdicts = draw(st.lists(st.sampled_from(pool), min_size=n, max_size=n))
-        forms = draw(st.lists(st.sampled_from([0, 1, 2, 3]), min_size=n, max_size=n))
+        forms = draw(st.lists(st.sampled_from([0, 1, 2, 3, 4, 5]), min_size=n, max_size=n))
     start = draw(st.sampled_from([-1, -1, 0, 1, 2, 3]))
     case = {"spec": spec, "verdicts": verdicts, "forms": forms, "start": start}
     if draw(st.sampled_from([0, 0, 1])):
